@@ -30,7 +30,7 @@ import vlib
 CORPUS = os.path.join(vlib.VERIF, 'harness', 'corpus', 'C09')
 NMAX = 40                       # addresses derived per chain on the scenario side
 WRAP = {None: 0, 'stream': 1, 'channel': 2, 'support': 3, 'supportdata': 3, 'collection': 5, 'repost': 6,
-        'update': 1, 'badclaim': 1}
+        'update': 1, 'badclaim': 1, 'badname': 1, 'badname_support': 3}
 SPENDABLE_TYPES = (0, 4)
 CLAIM_TYPES = (1, 2, 5, 6)
 
@@ -69,6 +69,12 @@ def build_output(spec, h160):
         if wrap == 'badclaim':
             return Output(amt, OutputScript(template=OutputScript.CLAIM_NAME_PUBKEY, values={
                 'claim_name': b'nm', 'claim': b'\xff\xfe\x00garbage', 'pubkey_hash': h160}))
+        if wrap == 'badname':        # claim whose NAME is not valid UTF-8 (anyone can pay such an output to any address)
+            return Output(amt, OutputScript(template=OutputScript.CLAIM_NAME_PUBKEY, values={
+                'claim_name': b'\xff\xfebad', 'claim': make_claim('stream').to_bytes(), 'pubkey_hash': h160}))
+        if wrap == 'badname_support':
+            return Output(amt, OutputScript(template=OutputScript.SUPPORT_CLAIM_PUBKEY, values={
+                'claim_name': b'\xc3\x28', 'claim_id': b'\x01' * 20, 'pubkey_hash': h160}))
         if wrap == 'update':
             return Output.pay_update_claim_pubkey_hash(amt, 'nm', cid, make_claim('stream'), h160)
         if wrap == 'support':
@@ -114,13 +120,25 @@ class World:
     def __init__(self, scenario, ledger):
         self.sc = scenario
         self.nmax = scenario.get('nmax', NMAX)
-        self.ledger = ledger
-        self.wallet = Wallet()
-        self.accounts = []
         self.addr_of = {}            # ('w', c, n) -> address string
         self.id_of_addr = {}         # address string -> model address json
         self.sh_ids = {}
         self.x_ids = {}
+        self.attach(ledger)
+        self.gaps = []
+        for k, a in enumerate(scenario['accounts']):
+            self.gaps += [[2 * k, a['gaps'][0]], [2 * k + 1, a['gaps'][1]]]
+        self.txs = []                # index -> dict(tx=Transaction, id=int, txid=str, ins=[(pid, pos)], outs=[model out])
+        self.by_txid = {}
+        self.heights = {}            # tx index -> height (current server state)
+        self.touch = {}              # tx index -> set of address strings (pubkey addresses only)
+
+    def attach(self, ledger):
+        """(re)create wallet and accounts on a ledger (again after a restart on the same database)"""
+        scenario = self.sc
+        self.ledger = ledger
+        self.wallet = Wallet()
+        self.accounts = []
         for k, a in enumerate(scenario['accounts']):
             acc = Account.from_dict(ledger, self.wallet, {
                 'seed': f'verif c09 account seed {a.get("seed_ix", k)}',
@@ -134,13 +152,6 @@ class World:
                     s = mgr.public_key.child(n).address
                     self.addr_of[('w', c, n)] = s
                     self.id_of_addr[s] = ['w', c, n]
-        self.gaps = []
-        for k, a in enumerate(scenario['accounts']):
-            self.gaps += [[2 * k, a['gaps'][0]], [2 * k + 1, a['gaps'][1]]]
-        self.txs = []                # index -> dict(tx=Transaction, id=int, txid=str, ins=[(pid, pos)], outs=[model out])
-        self.by_txid = {}
-        self.heights = {}            # tx index -> height (current server state)
-        self.touch = {}              # tx index -> set of address strings (pubkey addresses only)
 
     def h160_for(self, to):
         if to[0] == 'w':
@@ -299,7 +310,13 @@ class FakeNetwork:
         self.r.activity += 1
         await self._delay()
         w = self.r.world
-        return {t: (w.txs[w.by_txid[t]]['raw'], {}) for t in txids}
+        out = {}
+        for t in txids:
+            h = w.heights[w.by_txid[t]]
+            # a hub that sends proofs: every block of the scripted chain holds one transaction, so the branch is empty
+            proof = {'merkle': [], 'pos': 0, 'block_height': h} if self.r.sc.get('headers') and h > 0 else {}
+            out[t] = (w.txs[w.by_txid[t]]['raw'], proof)
+        return out
 
     async def get_merkle(self, txid, height):
         return {}
@@ -372,6 +389,10 @@ class FakeSession:
         raise RuntimeError(f'unexpected request {method}')
 
 
+class ProcessKilled(Exception):
+    """stands for the wallet process being killed at this point (scheduled by the scenario)"""
+
+
 class Runner:
     """Runs one scenario against the real code and records the trace of atomic steps."""
 
@@ -392,6 +413,10 @@ class Runner:
         self.sub_plan = []                   # (addresses, statuses) of every subscribe_addresses call
         self.sub_tasks = []                  # (address, status) of every update_history it started
         self.sub_call_of_task = {}
+        self.raw_headers, self.headers_known, self.headers_pushed = [], 0, 0
+        self.crash_armed = None              # number of add_keys calls until the process dies between its two writes
+        self.restarts = 0
+        self.crashed = False
         self.activity = 0
         self.count_held = 0
 
@@ -429,6 +454,20 @@ class Runner:
             elif kind == 'fault':              # ['fault', 'history'|'batch', k-th request from now, 'timeout'|'connection']
                 base = self.session.calls[act[1]] if self.sc.get('real_network') else 0
                 self.faults[(act[1], base + act[2])] = act[3]
+            elif kind == 'headers':            # the wallet already holds headers 0 .. n-1 (real Headers.connect)
+                raw = b''.join(self.header_for(h) for h in range(len(self.ledger.headers), act[1]))
+                if raw:
+                    await self.ledger.headers.connect(len(self.ledger.headers), raw)
+                self.headers_pushed = max(self.headers_pushed, act[1])
+            elif kind == 'push_header':        # header notification through the real Network.on_header stream
+                raw = self.header_for(act[1])
+                self.ledger.network._on_header_controller.add([{'height': act[1], 'hex': hexlify(raw).decode()}])
+                if act[1] == self.headers_pushed:
+                    self.headers_pushed += 1
+            elif kind == 'crash_add_keys':     # the process dies between the two committed statements of add_keys
+                self.crash_armed = act[1]
+            elif kind == 'restart':
+                await self.restart()
             elif kind == 'hold_sub':           # the k-th subscribe_address answer from now on is held back
                 self.gates[('sub', self.net.sub_calls + act[1])] = asyncio.Event()
             elif kind == 'release_sub':
@@ -471,6 +510,18 @@ class Runner:
         real_sethist = db.set_address_history
         real_get_addresses = db.get_addresses
 
+        real_executemany = db.db.executemany
+
+        def executemany(sql, params):
+            if me.crash_armed is not None and 'into pubkey_address (address)' in sql:
+                me.crash_armed -= 1
+                if me.crash_armed <= 0:
+                    me.crash_armed = None
+                    me.crashed = True
+                    raise ProcessKilled()
+            return real_executemany(sql, params)
+
+        db.db.executemany = executemany
         real_subscribe = ledger.subscribe_addresses
 
         async def subscribe_addresses(address_manager, addresses, batch_size=1000):
@@ -493,6 +544,8 @@ class Runner:
             me.activity += 1
             try:
                 return await real_update(address, remote_status, address_manager, reattempt_update)
+            except ProcessKilled:
+                raise
             except Exception as e:   # the TaskGroup would swallow it; the monitor must see it
                 import traceback
                 tb = traceback.extract_tb(e.__traceback__)
@@ -557,21 +610,74 @@ class Runner:
         else:
             self.ledger.process_status_update((address, status))
 
+    async def make_ledger(self):
+        if self.sc.get('headers'):
+            from lbry.wallet.header import UnvalidatedHeaders
+
+            class ScriptedHeaders(UnvalidatedHeaders):   # links are validated, difficulty and genesis hash are not
+                genesis_hash = None
+            headers = ScriptedHeaders(':memory:')
+        else:
+            headers = Headers(':memory:')
+        if self.sc.get('real_network'):
+            self.ledger = Ledger({'db': Database(os.path.join(self.dir, 'wallet.db')), 'headers': headers})
+            real = self.ledger.network                 # lbry.wallet.network.Network(ledger), unmodified
+            real.running = True
+            real.client = self.session = FakeSession(self, self.net)
+        else:
+            self.ledger = Ledger({'db': Database(os.path.join(self.dir, 'wallet.db')),
+                                  'headers': headers, 'network': self.net})
+        self.ledger.headers.checkpoints = {}       # no checkpoint file to build
+        await self.ledger.db.open()
+        await self.ledger.headers.open()
+        if self.raw_headers and self.sc.get('headers'):    # a restarted wallet reloads its header file
+            await self.ledger.headers.connect(0, b''.join(self.raw_headers[:self.headers_known]))
+        # what Ledger.start() does once the wallet is synced: transaction events reset the balance cache
+        self.ledger.on_transaction.listen(self.ledger._reset_balance_cache)
+
+    def header_for(self, height):
+        """scripted chain: block h holds the (single) scenario transaction confirmed at height h"""
+        import struct
+        from lbry.crypto.hash import double_sha256
+        while len(self.raw_headers) <= height:
+            h = len(self.raw_headers)
+            prev = double_sha256(self.raw_headers[-1]) if self.raw_headers else b'\0' * 32
+            root = b'\0' * 32
+            for i, rec in enumerate(self.world.txs):
+                if self.world.heights[i] == h:
+                    root = rec['tx'].hash
+                    break
+            self.raw_headers.append(struct.pack('<I', 1) + prev + root + b'\0' * 32 + struct.pack('<III', 1500000000 + h, 0x207fffff, h))
+        return self.raw_headers[height]
+
+    async def restart(self):
+        """the wallet process dies (every task is gone) and starts again on the same database file"""
+        old = self.ledger
+        tasks = list(old._update_tasks._tasks)
+        old._update_tasks.cancel()
+        others = [t for t in asyncio.all_tasks() if t is not asyncio.current_task()]
+        for t in others:
+            t.cancel()
+        if others:
+            await asyncio.wait(others, timeout=5)
+        self.headers_known = len(old.headers)
+        await old.db.close()
+        self.crash_armed = None
+        self.task_info, self.locked = {}, {}
+        self.net.subscribed, self.net.calls = [], {}
+        self.last_notified = {}
+        self.restarts += 1
+        await self.make_ledger()
+        self.world.attach(self.ledger)
+        self.instrument()
+        self.log('restart')
+        await self.ledger.subscribe_accounts()
+
     async def run(self, on_checkpoint):
         self.dir = tempfile.mkdtemp(prefix='c09-')
         try:
             self.net = FakeNetwork(self)
-            if self.sc.get('real_network'):
-                self.ledger = Ledger({'db': Database(os.path.join(self.dir, 'wallet.db')), 'headers': Headers(':memory:')})
-                real = self.ledger.network                 # lbry.wallet.network.Network(ledger), unmodified
-                real.running = True
-                real.client = self.session = FakeSession(self, self.net)
-            else:
-                self.ledger = Ledger({'db': Database(os.path.join(self.dir, 'wallet.db')),
-                                      'headers': Headers(':memory:'), 'network': self.net})
-            self.ledger.headers.checkpoints = {}       # no checkpoint file to build; nothing is verified (C08)
-            await self.ledger.db.open()
-            await self.ledger.headers.open()
+            await self.make_ledger()
             self.world = World(self.sc, self.ledger)
             self.instrument()
             self.log('server', [])
@@ -625,6 +731,12 @@ class Runner:
     # -- observation of the real wallet ---------------------------------------------------------
     async def observe(self):
         w, db = self.world, self.ledger.db
+        # asynchronous stream listeners (balance cache reset, header notifications) run as tasks: let them finish
+        for _ in range(50):
+            others = [t for t in asyncio.all_tasks() if t is not asyncio.current_task()]
+            if not others:
+                break
+            await asyncio.wait(others, timeout=0.2)
         rows = await db.db.execute_fetchall(
             'select account, address, chain, n, history from account_address join pubkey_address using (address)')
         chains = {}
@@ -652,7 +764,7 @@ class Runner:
         txi.sort()
         accounts = []
         for acc in w.accounts:
-            det = await acc.get_detailed_balance()
+            det = await self.ledger.get_detailed_balance([acc])       # the cached path the daemon uses
             sp = await acc.get_utxos()
             allu = await db.get_utxos(accounts=[acc])
             accounts.append({
@@ -663,7 +775,8 @@ class Runner:
                 'available': det['available'], 'reserved': det['reserved'],
                 'utxos': sorted([tid(o.tx_ref.id), o.position] for o in allu),
                 'spendable': sorted([tid(o.tx_ref.id), o.position] for o in sp)})
-        return {'chains': obs_chains, 'tx': tx, 'txo': txo, 'txi': txi, 'accounts': accounts}
+        return {'chains': obs_chains, 'tx': tx, 'txo': txo, 'txi': txi, 'accounts': accounts,
+                'headers': len(self.ledger.headers), 'headers_expected': self.headers_pushed}
 
 
 # ------------------------------------------------------------------------------------------------
@@ -751,9 +864,9 @@ def monitor(world, obs, errors):
 THIRD_KINDS = [('p2pkh', None), ('p2pkh', 'stream'), ('p2pkh', 'support'), ('p2pkh', 'channel'), ('p2sh', None),
                ('p2sh', 'stream'), ('p2sh', 'support'), ('p2sh', 'update'), ('p2sh', 'supportdata'), ('pubkey', None),
                ('segwit', None), ('data', None), ('empty', None), ('p2pkh', 'update'), ('p2pkh', 'badclaim'),
-               ('nontemplate', None)]
+               ('nontemplate', None), ('p2pkh', 'badname'), ('p2pkh', 'badname_support')]
 MINE_WRAPS = [None, None, None, None, 'stream', 'channel', 'support', 'supportdata', 'update', 'collection',
-              'repost', 'badclaim']
+              'repost', 'badclaim', 'badname', 'badname_support']
 
 
 def gen_scenario(rng, size):
@@ -944,6 +1057,65 @@ def fault_scenario(rng, demo=False):
             'real_network': True, 'stages': [{'new': [], 'order_seed': 1}, {'actions': actions}]}
 
 
+def header_race_scenario(rng, demo=False):
+    """the two notification streams race: the wallet holds headers 0..N-1; transactions are mined at heights
+    N-1 (below the tip: verified with the proof the hub sends), N (the block right above the tip), N+1; the address
+    statuses are processed BEFORE or AFTER the headers N, N+1 arrive through Network.on_header."""
+    n = 3 if demo else rng.randrange(2, 6)
+    def w(k):
+        return ['w', 0, 0, k]
+    heights = [n] if demo else rng.sample([n - 1, n, n, n + 1], rng.randrange(1, 4))
+    adds = [['add', {'ins': [['ext', 900 + i]], 'outs': [{'kind': 'p2pkh', 'amt': 100 * (i + 1), 'to': w(i % 3)}], 'height': h}]
+            for i, h in enumerate(sorted(set(heights)))]
+    notifies = [['notify', w(k)] for k in range(3)]
+    pushes = [['push_header', n], ['pause'], ['push_header', n + 1], ['pause']]
+    status_first = demo or rng.random() < 0.7
+    actions = adds + [['headers', n]] + (notifies + [['pause']] + pushes if status_first else pushes + notifies + [['pause']])
+    # a later payment once the headers are there (its status arrives after its header)
+    actions += [['add', {'ins': [['ext', 950]], 'outs': [{'kind': 'p2pkh', 'amt': 7, 'to': w(1)}], 'height': n + 1 if n + 1 not in heights else 0}],
+                ['notify', w(1)], ['pause']]
+    return {'accounts': [{'seed_ix': 0, 'gaps': [3, 1]}], 'delay_seed': 0 if demo else rng.randrange(10 ** 6),
+            'real_network': True, 'headers': True, 'stages': [{'new': [], 'order_seed': 1}, {'actions': actions}]}
+
+
+def crash_scenario(rng, demo=False):
+    """the wallet process is killed and restarted: (demo) between the two committed statements of add_keys during a
+    gap top-up; (random) also at an arbitrary pause while answers are held back; afterwards an address inside the
+    gap that must exist by then is paid."""
+    g = 3 if demo else rng.choice((2, 3))
+    def w(k):
+        return ['w', 0, 0, k]
+    def pay(k, i, amt):
+        return ['add', {'ins': [['ext', 1000 + i]], 'outs': [{'kind': 'p2pkh', 'amt': amt, 'to': w(k)}], 'height': 50 + i}]
+    n1 = g - 1 if demo else rng.randrange(g)
+    actions = []
+    mode = 'add_keys' if demo else rng.choice(('add_keys', 'add_keys', 'held', 'idle'))
+    if mode == 'add_keys':
+        actions += [['crash_add_keys', 1], pay(n1, 0, 100), ['notify', w(n1)], ['pause'], ['restart'], ['pause']]
+    elif mode == 'held':
+        actions += [['hold', w(n1), 1], pay(n1, 0, 100), ['notify', w(n1)], ['pause'], ['restart'], ['pause']]
+    else:
+        actions += [pay(n1, 0, 100), ['notify', w(n1)], ['pause'], ['restart'], ['pause']]
+    n2 = n1 + g if demo else rng.randrange(n1 + 1, n1 + g + 1)
+    actions += [pay(n2, 1, 200), ['notify', w(n2)], ['pause']]
+    if not demo and rng.random() < 0.5:
+        actions += [['restart'], ['pause'], pay(n2 + 1, 2, 400), ['notify', w(n2 + 1)], ['pause']]
+    return {'accounts': [{'seed_ix': 0, 'gaps': [g, 1]}], 'delay_seed': 0 if demo else rng.randrange(10 ** 6),
+            'real_network': (not demo) and rng.random() < 0.5,
+            'stages': [{'new': [], 'order_seed': 1}, {'actions': actions}]}
+
+
+def cache_scenario():
+    """two payments in two stages: the detailed balance the daemon serves (Ledger.get_detailed_balance, cached per
+    account, reset by an asynchronous on_transaction listener) must follow the second payment"""
+    def w(k):
+        return ['w', 0, 0, k]
+    return {'accounts': [{'seed_ix': 0, 'gaps': [3, 1]}], 'delay_seed': 2, 'stages': [
+        {'new': [{'ins': [['ext', 1]], 'outs': [{'kind': 'p2pkh', 'amt': 500, 'to': w(1)}], 'height': 5}], 'order_seed': 1},
+        {'new': [{'ins': [['ext', 2]], 'outs': [{'kind': 'p2pkh', 'amt': 700, 'to': w(2)},
+                                                {'kind': 'p2pkh', 'wrap': 'support', 'amt': 30, 'to': w(0)}], 'height': 6}], 'order_seed': 2}]}
+
+
 def big_subscribe_scenario(gap=1030, paid=(1010,)):
     """one subscribe_addresses call with more than one batch of 1000 addresses: a receiving gap above 1000 and
     funds already sitting on addresses with index >= 1000 when the wallet subscribes (within the gap limit)"""
@@ -1002,6 +1174,10 @@ def run_case(run, model, scenario, label):
         loop.close()
     case = {'label': label, 'scenario': scenario}
     ntx = sum(len(s.get('new', [])) + sum(1 for a in s.get('actions', []) if a[0] == 'add') for s in scenario['stages'])
+    if scenario.get('headers'):
+        run.count('header_and_proof_schedules')
+    if runner.restarts:
+        run.count('restarts', runner.restarts)
     if scenario.get('real_network'):
         run.count('real_Network_object')
         run.count('requests_failed_once', runner.faults_injected)
@@ -1014,6 +1190,9 @@ def run_case(run, model, scenario, label):
     run.count('accounts=%d' % n_acc)
     nontemplate = any(o['kind'] == 'nontemplate' for s in scenario['stages'] for t in s.get('new', []) for o in t['outs'])
     gated = any(s.get('actions') for s in scenario['stages'])
+    all_outs = [o for s in scenario['stages'] for t in list(s.get('new', [])) + [a[1] for a in s.get('actions', []) if a[0] == 'add']
+                for o in t['outs']]
+    badname = any(o.get('wrap') in ('badname', 'badname_support') for o in all_outs)
     if crash:
         run.violation(case, f'the sync run did not complete: {crash}; errors={runner.errors[:2]}',
                       signature={'kind': 'non_template_output_script'} if nontemplate else {'kind': 'crash', 'label': label})
@@ -1025,11 +1204,17 @@ def run_case(run, model, scenario, label):
             kinds[op[0]] = kinds.get(op[0], 0) + 1
         if bad:
             sig = {'kind': 'non_template_output_script'} if nontemplate else {'kind': 'monitor', 'label': label, 'stage': si}
+            if badname and 'UnicodeDecodeError' in bad:
+                sig = {'kind': 'claim_name_not_utf8'}
             if gated:
                 bad += ' (explicit schedule of notifications, held-back answers and failing requests: see actions)'
             run.violation(case, f'stage {si}: {bad}', signature=sig)
             return
         m = model.call('run', gaps=runner.world.gaps, ops=ops, accounts=[[2 * k, 2 * k + 1] for k in range(n_acc)])
+        if scenario.get('headers') and obs['headers'] != obs['headers_expected']:
+            run.disagreement('C09.header_notification', case, {'stage': si, 'headers': obs['headers']},
+                             {'headers': obs['headers_expected']})
+            return
         if m['stuck'] is not None:
             # the recorded interleaving is not a run of the model (e.g. two syncs of one address overlapped)
             run.disagreement('C09.trace_is_not_a_model_run', case, {'stage': si, 'op_index': m['stuck'], 'op': ops[m['stuck']][:2]}, None)
@@ -1117,6 +1302,14 @@ def main(run):
     run_case(run, model, fault_scenario(rng, demo=True), 'fault:demo')
     for i in range(vlib.scaled(run.tier, 8, 150)):
         run_case(run, model, fault_scenario(rng), f'fault:{i}')
+    # header / status race with a hub that sends merkle proofs; process killed and restarted
+    run_case(run, model, cache_scenario(), 'cache:two_payments')
+    run_case(run, model, header_race_scenario(rng, demo=True), 'headers:demo')
+    for i in range(vlib.scaled(run.tier, 6, 120)):
+        run_case(run, model, header_race_scenario(rng), f'headers:{i}')
+    run_case(run, model, crash_scenario(rng, demo=True), 'crash:demo')
+    for i in range(vlib.scaled(run.tier, 8, 150)):
+        run_case(run, model, crash_scenario(rng), f'crash:{i}')
     # more than one batch of 1000 addresses in one subscribe_addresses call (the batch size is a default argument
     # bound at definition time, so the boundary cannot be lowered: the case is really that large)
     run_case(run, model, big_subscribe_scenario(), 'bigsub:1030')
